@@ -2,7 +2,6 @@
    reb_simulation_add.  The tree data structure itself is not modelled. *)
 From Coq Require Import Reals Lra Psatz List Permutation.
 From RV Require Import Common.Num Common.RealNum C13.Model.
-From Interval Require Import Tactic.
 Import ListNotations.
 Open Scope R_scope.
 
@@ -101,7 +100,14 @@ Qed.
 Definition kappa_code : R := 86602540378443 / 100000000000000.
 (* it is a truncation of sqrt(3)/2 = 0.8660254037844386..., i.e. slightly SMALLER than the half diagonal factor *)
 Lemma kappa_code_short : kappa_code < sqrt 3 / 2 /\ sqrt 3 / 2 - kappa_code <= 1 / 100000000000000.
-Proof. unfold kappa_code. split; interval with (i_prec 80). Qed.
+Proof.
+  unfold kappa_code.
+  assert (L : 2 * (86602540378443 / 100000000000000) < sqrt 3).
+  { rewrite <- (sqrt_square (2 * (86602540378443 / 100000000000000))) by lra. apply sqrt_lt_1_alt. lra. }
+  assert (U : sqrt 3 <= 2 * (86602540378443 / 100000000000000) + 2 / 100000000000000).
+  { rewrite <- (sqrt_square (2 * (86602540378443 / 100000000000000) + 2 / 100000000000000)) by lra. apply sqrt_le_1_alt. lra. }
+  split; lra.
+Qed.
 
 (* with the code's constant the pruning is sound up to a depth of 1e-14 w *)
 Corollary prune_sound_code gx gy gz cx cy cz w qx qy qz g'x g'y g'z q'x q'y q'z p_r mr1 rq D1 D2 :
